@@ -216,6 +216,27 @@ def pf_all(args):
                     raise
                 except Exception as e:   # noqa
                     results[name] = 'raise:' + type(e).__name__
+    # histories: two interpreters built from ONE claims list run one after the other and publish their proof, the way
+    # ProofExp.serialize(optimize=True) runs the counting pass and then the memoising serializer
+    from proof_generation.claim import Claim
+    pairs = [('counting', lambda cl: prime(CountingInterpreter(ExecutionPhase.Proof, cl)),
+              'memo.serializing', lambda cl: MemoizingInterpreter(prime(SerializingInterpreter(ExecutionPhase.Proof, S(), cl)), set(sugg))),
+             ('stateful', lambda cl: prime(StatefulInterpreter(ExecutionPhase.Proof, cl)),
+              'pretty', lambda cl: prime(PrettyPrintingInterpreter(ExecutionPhase.Proof, T(), cl)))]
+    for n1, f1, n2, f2 in pairs:
+        shared = [Claim(th0.conc)]
+        for tag, f in ((n1, f1), (n2, f2)):
+            name = f'shared-claims[{n1}>{n2}].{tag}'
+            try:
+                it = f(shared)
+                pe, th = fresh_thunk()
+                r = th(it)
+                it.publish_proof(r)
+                results[name] = sx.pat_to_s(pyconv.from_py(r.conclusion, None, True))
+            except RecursionError:
+                raise
+            except Exception as e:   # noqa
+                results[name] = 'raise:' + type(e).__name__
     outcomes = set(results.values())
     if len(outcomes) == 1:
         o = outcomes.pop()
